@@ -231,6 +231,13 @@ def run(prop, tier):
                 jobs.append(("subset", m, sub, m in sub, ()))
         for m in names:
             jobs.append(("subset", m, (), True, ("-a",)))
+        # events whose model byte belongs to no model of the emulator are events of a model that is not enabled, whatever
+        # the streams require and also when all models are forced on
+        owned = set(d["char"] for d in cat.values())
+        for ch in "ZzQ0!":
+            if ch not in owned:
+                for sub, fl in (((), ()), (tuple(names), ()), ((), ("-a",))):
+                    jobs.append(("nomodel", ch + "A[", sub, False, fl))
 
         def one(j):
             kind, model, arg, want, flags = j
@@ -282,8 +289,8 @@ def run(prop, tier):
                 for s in arg:
                     req[s] = cat[s]["version"]
                 system = emusrv.System(spec, require=req)
-                a, b = PROBE[model]
-                emusrv.materialise(system, td, X + [Ev(0, a), Ev(0, b)] + E, {0: rels[0], 1: rels[1]})
+                evs = [Ev(0, model)] if kind == "nomodel" else [Ev(0, PROBE[model][0]), Ev(0, PROBE[model][1])]
+                emusrv.materialise(system, td, X + evs + E, {0: rels[0], 1: rels[1]})
             eflags = [f for f in (flags or ()) if f != "link"]
             if flags and "link" in flags:
                 # the second stream's directory lives elsewhere and is reached through a symbolic link
